@@ -129,6 +129,9 @@ def judge_c02(ctx, idx, op, impl, mi, ms, reason):
 
 
 def judge_c03(ctx, idx, op, impl, mi, ms, reason):
+    if op[0] == "tables":
+        ctx.count("tables")
+        return same(ctx, idx, op, impl, mi, "cmdKnown / appKnown <-> CommandCode::from_u32 / ApplicationId::from_u32 (tables enumerated over the 24-bit space)")
     if op[0] in ("deca", "decg"):
         ctx.count(op[0] + "_" + impl.split(" ")[0])
         return same(ctx, idx, op, impl, mi, "Impl.decAvp / decGroup <-> Avp::decode_from / Grouped::decode_from (public entry points, cursor position)")
@@ -695,7 +698,7 @@ def shipped_defs(wd):
 PROPS = {
     "C01": dict(family="c01", judge=judge_c01, probes=("enc", "len", "dump"), title="Encoded bytes are exactly the RFC 6733 wire format"),
     "C02": dict(family="c02", extra=shipped_defs, judge=judge_c02, probes=("rt",), title="Encode then decode returns the same message"),
-    "C03": dict(family="c03", judge=judge_c03, probes=("dec", "deca", "decg"), expect_keys=['reason_e_addr', 'reason_e_app', 'reason_e_cmd', 'reason_e_eof', 'reason_e_mismatch', 'reason_e_short', 'reason_e_unknownAvp', 'reason_e_utf8', 'reason_ok_lie0', 'reason_ok_lie1', 'refused_too_deep', 'deca_ok', 'deca_err', 'decg_ok', 'decg_err', 'full', 'notfull'], title="Decoding is faithful"),
+    "C03": dict(family="c03", judge=judge_c03, probes=("dec", "deca", "decg", "tables"), expect_keys=["tables", 'reason_e_addr', 'reason_e_app', 'reason_e_cmd', 'reason_e_eof', 'reason_e_mismatch', 'reason_e_short', 'reason_e_unknownAvp', 'reason_e_utf8', 'reason_ok_lie0', 'reason_ok_lie1', 'refused_too_deep', 'deca_ok', 'deca_err', 'decg_ok', 'decg_err', 'full', 'notfull'], title="Decoding is faithful"),
     "C04": dict(family="c04", judge=judge_c04, probes=("decq",), expect_keys=['reason_e_addr', 'reason_e_app', 'reason_e_cmd', 'reason_e_eof', 'reason_e_mismatch', 'reason_e_short', 'reason_e_unknownAvp', 'reason_e_utf8', 'reason_e_deep', 'reason_ok', 'depth_32'], title="The decoder is total"),
     "C05": dict(family="c05", judge=judge_c05, probes=("ench", "encw", "senc"), expect_keys=["senc_ok", "senc_err", "ench_ok", "ench_err_unrepresentable", "encw_ok", "encw_err", "encw_err_unrepresentable", "encw_fault_inside_frame", "encw_mode_1_2_zero", "encw_mode_0_0_err"], title="Encoding never reports success for a frame it did not fully produce"),
     "C06": dict(family="c06", judge=judge_c06, probes=("sdec", "senc"), title="Stream framing is independent of how bytes are segmented"),
